@@ -49,6 +49,8 @@ val print_nat : nat -> bytes
 
 val print_lit : coq_Z -> bytes
 
+val split_sign : bytes -> bool * bytes
+
 val parse_Z : bytes -> coq_Z option
 
 val isize_min : coq_Z
